@@ -366,6 +366,14 @@ func (e *specEnv) ident(name string) specVal {
 							if ob := dr.Object(); ob != nil && ob.Pkg() != nil && ob.Parent() == ob.Pkg().Scope() {
 								continue
 							}
+							if cellv, et, x0, ok := e.loadOfNamedCell(dr.X, name); ok {
+								// a variable that lives in a cell (its address is taken somewhere): the name denotes
+								// the cell's current content, not the value some earlier statement loaded from it
+								if kindOf(et) == kStruct {
+									return specVal{V: cellv, T: x0.Type()}
+								}
+								return specVal{V: v.deref(e.st, cellv, et, e.g()), T: et}
+							}
 							if _, have := e.fr.vals[dr.X]; have {
 								if found == nil {
 									found = dr.X
@@ -464,6 +472,14 @@ func (e *specEnv) ident(name string) specVal {
 	{
 		var found ssa.Value
 		ambiguous := false
+		// several variables of that name (one per clause of a type switch, or shadowing blocks): in a loop clause
+		// the name denotes the variable whose lexical scope holds the loop
+		var inScope ssa.Value
+		inScopeAmbiguous := false
+		var lpos token.Pos
+		if e.loop != nil {
+			lpos = loopPos(fn, e.loop)
+		}
 		for _, b := range fn.Blocks {
 			for _, ins := range b.Instrs {
 				if dr, ok := ins.(*ssa.DebugRef); ok && !dr.IsAddr {
@@ -480,9 +496,18 @@ func (e *specEnv) ident(name string) specVal {
 							ambiguous = true
 						}
 						found = dr.X
+						if ob := dr.Object(); ob != nil && ob.Parent() != nil && lpos.IsValid() && ob.Parent().Contains(lpos) {
+							if inScope != nil && inScope != dr.X {
+								inScopeAmbiguous = true
+							}
+							inScope = dr.X
+						}
 					}
 				}
 			}
+		}
+		if ambiguous && inScope != nil && !inScopeAmbiguous {
+			return specVal{V: v.value(e.fr, inScope), T: inScope.Type()}
 		}
 		if found != nil && !ambiguous {
 			return specVal{V: v.value(e.fr, found), T: found.Type()}
@@ -1173,6 +1198,11 @@ func (e *specEnv) call(c SCall) specVal {
 				panic(specErr("%s(): cannot resolve function %v", id.Name, c.Args[0]))
 			}
 			return specVal{V: Sc{e.st.ghostGet(id.Name + "#" + FuncKey(callee))}, T: types.Typ[types.Bool]}
+		case "alive":
+			// alive(p): p is nil or an object that exists in the current state (so that an object allocated later
+			// is a different one); needed under quantifiers, where loaded pointers get no typing assumption
+			a := e.eval(c.Args[0])
+			return specVal{V: Sc{Le(a.V.(Sc).T, e.st.allocPtr)}, T: types.Typ[types.Bool]}
 		case "fresh":
 			// fresh(p): p was allocated during the call (not alive in the old state)
 			a := e.eval(c.Args[0])
@@ -1257,6 +1287,28 @@ func (e *specEnv) call(c SCall) specVal {
 	}
 	for _, a := range c.Args {
 		args = append(args, e.eval(a))
+	}
+	if con := v.w.Contracts.ByFunc[callee]; con != nil && con.Pure && callee.Signature.Variadic() && len(args) >= len(callee.Params)-1 {
+		// f(a, b, c) for a variadic pure f: the application to the pack of those values (see applyContract)
+		last := len(callee.Params) - 1
+		et := under(callee.Params[last].Type()).(*types.Slice).Elem()
+		if kindOf(et) == kScalar {
+			var avs []Val
+			for i := 0; i < last; i++ {
+				avs = append(avs, e.coerce(args[i], callee.Params[i].Type()))
+			}
+			tv := TupleV{}
+			for _, a := range args[last:] {
+				tv.E = append(tv.E, e.coerce(a, et))
+			}
+			avs = append(avs, tv)
+			res := callee.Signature.Results()
+			var rt types.Type = res
+			if res.Len() == 1 {
+				rt = res.At(0).Type()
+			}
+			return specVal{V: v.pureAppNamed(callee, fmt.Sprintf("#pack%d", len(tv.E)), avs, e.st, rt, e.g()), T: rt}
+		}
 	}
 	if len(args) != len(callee.Params) {
 		panic(specErr("arity mismatch calling %s in contract", callee.Name()))
@@ -1471,4 +1523,37 @@ func lockedParams() map[string][]string {
 		}
 	}
 	return lockedParamsCache
+}
+
+// loopPos: a source position inside the loop (the smallest position of an instruction of its blocks)
+func loopPos(fn *ssa.Function, li *loopInfo) token.Pos {
+	var best token.Pos
+	for _, b := range fn.Blocks {
+		if !li.body[b.Index] {
+			continue
+		}
+		for _, ins := range b.Instrs {
+			if p := ins.Pos(); p.IsValid() && (!best.IsValid() || p < best) {
+				best = p
+			}
+		}
+	}
+	return best
+}
+
+// loadOfNamedCell: x is `*cell` where cell is the Alloc of the local variable `name` and the cell exists in this frame
+func (e *specEnv) loadOfNamedCell(x ssa.Value, name string) (Val, types.Type, *ssa.Alloc, bool) {
+	u, ok := x.(*ssa.UnOp)
+	if !ok || u.Op != token.MUL {
+		return nil, nil, nil, false
+	}
+	al, ok := u.X.(*ssa.Alloc)
+	if !ok || al.Comment != name {
+		return nil, nil, nil, false
+	}
+	cell, ok := e.fr.vals[al]
+	if !ok {
+		return nil, nil, nil, false
+	}
+	return cell, elemTypeOfAddr(al), al, true
 }
